@@ -101,6 +101,14 @@ class Layout:
                 tagset.append(t)
         self.tags = tagset
         self.extra_tags = list(extra_tags)
+        # PROVISO of the property as checked: a delete_match pattern that matches a key of the reserved namespace '_tag:' (e.g.
+        # '*:1' matches '_tag:tag:1') deletes tag sets, after which delete_tags cannot find their members - such patterns
+        # are excluded from the histories (like the ':' proviso of C03 / C04); this guard enforces it for every layout
+        for pat in self.patterns:
+            rx = re.compile(".*".join(re.escape(x) for x in pat.split("*")), re.DOTALL)
+            hit = [t for t in self.tags if rx.fullmatch("_tag:" + t)]
+            if hit or rx.fullmatch("_tag:"):
+                raise HarnessError(f"layout {name}: pattern {pat!r} reaches the reserved '_tag:' namespace ({hit[:2]})")
 
     # -- the harness's own reading of the registry: which tags does key K get?  (independent of cashews:
     #    plain substitution of the key's own field values into the tag template)
@@ -341,7 +349,15 @@ CONFIGS = {
     "shared_secret": dict(url="mem://?size={size}&check_interval=0&secret=s3cr3t&digestmod=md5", tags_url=None, purge=0),
     "shared_purge": dict(url="mem://?size={size}&check_interval=1", tags_url=None, purge=8),
     "separate_purge": dict(url="mem://?size={size}&check_interval=1", tags_url="mem://?size={size}&check_interval=1", purge=8),
+    # several data backends routed by key prefix: the keys of the layout under SPLIT_PREFIX live in a second in-memory backend
+    # (cache.setup(url, prefix=...)), the others in the default one; one tag's members then live in both, and delete_tags /
+    # delete_many have to reach each key in the backend that owns it.  Tag sets in the default backend / in a dedicated one.
+    "split": dict(url="mem://?size={size}&check_interval=0", tags_url=None, purge=0, split=True),
+    "split_tags": dict(url="mem://?size={size}&check_interval=0", tags_url="mem://?size={size}&check_interval=0", purge=0, split=True),
 }
+
+# which keys of a layout go to the second data backend of the configurations `split*` (a key prefix; it need not end at ':')
+SPLIT_PREFIX = {"plain": "k:1", "unreg": "k:1", "templ": "s:", "decor": "c:", "mut": "q:", "strat": "hit:", "nl": "g:", "big": "o:"}
 
 
 def val_of(tok: str):
@@ -414,9 +430,13 @@ class Runner:
     # ---- raw, non-touching views of the stores (oracle + statistics only; never compared with the model)
     def _raw(self, ki: int):
         try:
-            return self.backend.store.get(self.lay.keys[ki][0])
+            return self._owner(self.lay.keys[ki][0]).store.get(self.lay.keys[ki][0])
         except AttributeError as exc:  # pragma: no cover
             raise HarnessError(f"cannot peek into Memory.store: {exc}")
+
+    def _owner(self, name: str):
+        """the data backend that owns a key / a pattern: longest matching prefix"""
+        return max((r for r in self.routes if name.startswith(r[0])), key=lambda r: len(r[0]))[1]
 
     def _readable(self, ki: int):
         ent = self._raw(ki)
@@ -441,6 +461,15 @@ class Runner:
         lay = self.lay
         cache = Cache()
         self.backend = cache.setup(self.cfg["url"].format(size=SIZE))
+        self.routes = [("", self.backend)]       # (key prefix, data backend) - the harness's own reading of the prefix routing
+        if self.cfg.get("split"):
+            if self.cfg["purge"]:
+                raise HarnessError("split configurations run without the purge task")
+            prefix = SPLIT_PREFIX[lay.name.split(":")[0].split("+")[0]]
+            self.routes.append((prefix, cache.setup(self.cfg["url"].format(size=SIZE), prefix=prefix)))
+            here = [k for k, _, _ in lay.keys if k.startswith(prefix)]
+            if not here or len(here) == len(lay.keys):
+                raise HarnessError(f"layout {lay.name}: the prefix {prefix!r} does not split its keys over two backends")
         self.tags_backend = self.backend
         if self.cfg["tags_url"]:
             self.tags_backend = cache.setup_tags_backend(self.cfg["tags_url"].format(size=SIZE))
@@ -735,6 +764,8 @@ class Runner:
             return line, ("T" if r is True else "F" if r is False else f"?{r!r}")
         if op == "delmany":
             ks = [int(x) for x in w[1:]]
+            if len(self.routes) > 1 and len({id(self._owner(lay.keys[k][0])) for k in ks if self._readable(k) is not None}) > 1:
+                self._bump("delete_many_removes_live_keys_of_two_backends")
             for ki in ks:
                 self._touch_stats(ki)
             r = await c.delete_many(*[lay.keys[ki][0] for ki in ks])
@@ -744,6 +775,13 @@ class Runner:
         if op == "delmatch":
             pi = int(w[1])
             ks = lay.match(pi)
+            if len(self.routes) > 1:
+                # a pattern command goes to ONE backend, the one the pattern's own prefix routes to: it sees that backend's keys only
+                pat_owner = self._owner(lay.patterns[pi])
+                elsewhere = [ki for ki in ks if self._owner(lay.keys[ki][0]) is not pat_owner]
+                if elsewhere:
+                    self._bump("delete_match_pattern_matches_keys_of_another_backend(not reached)")
+                ks = [ki for ki in ks if ki not in elsewhere]
             live = [ki for ki in ks if self._readable(ki) is not None]
             for ki in ks:
                 if ki not in live and self._raw(ki) is not None and any(self._in_set(t, ki) for t in range(len(lay.tags))):
@@ -919,6 +957,10 @@ class Runner:
                         self._bump("deltags_tag_set_outlived_its_deadline_before_the_rewrite")
         if any(readable_before[k] and k in die for k in range(n)):
             self._bump("deltags_removes_live_key")
+        if len(self.routes) > 1:
+            owners = {id(self._owner(lay.keys[k][0])) for k in die if readable_before[k]}
+            if len(owners) > 1:
+                self._bump("deltags_removes_live_keys_of_two_backends")
         recreated = [k for k in stay if readable_before[k] and any(t in self.ever[k] for t in tl)]
         if recreated:
             self._bump("deltags_spares_key_recreated_without_tag")
@@ -988,7 +1030,11 @@ class Runner:
                 raise HarnessError(f"the virtual clock moved during `{line}`")
             self.eff.append((mline, out))
         # which backend physically holds the tag sets (glue: prefix routing of '_tag:')
-        data_has_sets = any(isinstance(k, str) and k.startswith("_tag:") for k in self.backend.store)
+        data_has_sets = any(isinstance(k, str) and k.startswith("_tag:") for _, b in self.routes for k in b.store)
+        for prefix, b in self.routes:
+            stray = [k for k in b.store if isinstance(k, str) and not k.startswith("_tag:") and self._owner(k) is not b]
+            if stray:
+                self.eff.append(("?routing", f"keys {stray[:3]} found in the backend of prefix {prefix!r}, which does not own them"))
         if self.cfg["tags_url"] and data_has_sets:
             self.eff.append(("?routing", "tag sets found in the data backend although a tags backend is set up"))
         await self.cache.close()
@@ -1060,9 +1106,47 @@ def not_judged_probes() -> dict:
         except Exception as exc:  # noqa: BLE001
             out["delete_tags_in_rolled_back_transaction_loses_membership"] = f"X:{type(exc).__name__}"
         await cache.close()
+        cache = Cache()
+        cache.setup("mem://?size=1000&check_interval=0")
+        await cache.init()
+        await cache.set("a:1", 1, tags=["tag:1"])
+        await cache.set("b:2", 2, tags=["tag:1"])
+        await cache.delete_match("*:1")       # also matches the internal key '_tag:tag:1': the tag set is deleted
+        await cache.delete_tags("tag:1")
+        out["delete_match_pattern_reaching_the_reserved_tag_namespace_deletes_the_tag_set"] = await cache.get("b:2") is not None
+        await cache.close()
         return out
 
     return vtime.run(go)
+
+
+def disabled_incr_probe():
+    """a tagged incr while the INCR command is disabled answers None and writes nothing: it must not file the key under the
+    tags either (`set` is guarded by `if _set and tags`).  Otherwise a key that never carried the tag - written later, without
+    tags - is deleted by delete_tags.  Returns None if the later key survives, else a description."""
+    from cashews import Cache, Command
+
+    async def go():
+        cache = Cache()
+        cache.setup("mem://?size=1000&check_interval=0")
+        cache.register_tag("dt", "dk:{i}")
+        await cache.init()
+        cache.disable(Command.INCR)
+        r = await cache.incr("dk:1", tags=["dt"])
+        cache.enable(Command.INCR)
+        await cache.set("dk:1", 5)
+        await cache.delete_tags("dt")
+        got = await cache.get("dk:1", default=None)
+        await cache.close()
+        return r, got
+
+    r, got = vtime.run(go)
+    if r is not None:
+        raise HarnessError(f"a disabled incr answered {r!r}")
+    if got != 5:
+        return {"ops": ["disable INCR", "incr dk:1 tags=[dt] -> None", "enable INCR", "set dk:1 5 (no tags)", "delete_tags dt", "get dk:1"],
+                "observed": repr(got), "expected": "5"}
+    return None
 
 
 def batch_literal() -> int:
